@@ -413,10 +413,12 @@ def judge_structure(D: Dec, width: int, wrap: str, align: str, layout, C=None):
                     if r == 0:
                         kb = D.kinds[at[ea] - 1]
                         ka = D.kinds[at[sb]]
-                        if kb != W and ka != W:
+                        if kb not in (W, SP) and ka not in (W, SP):
                             V.append(("space-break", f"inside-word:{kb}|{ka}", f"break between offsets {ea - 1} and {sb} though every word fits in {width}"))
-                        else:
+                        elif W in (kb, ka):
                             cnt("space_breaks_next_to_wide")
+                        else:
+                            cnt("space_breaks_next_to_shown_space")
                     else:
                         cnt("space_breaks_at_space")
         ll, _, el = flat[-1]
